@@ -15,7 +15,8 @@ struct ModelState {
     Vec<int> pluginCalls;
     ModelState() : seq(0) { for (int i = 0; i < N_SLOTS; i++) slots[i].live = false; }
 };
-struct ExpTest { Vec<ExpOp> ops; Vec<ExpFail> fails; size_t checks; bool leakFailure; Vec<ExpLeak> leaks; };
+struct ExpTest { Vec<ExpOp> ops; Vec<ExpFail> fails; size_t checks; bool leakFailure; Vec<ExpLeak> leaks;
+                 int childEnd /* 0 normal, 1 killed by signal, 2 _exit */, childValue, childStops; };
 
 static Str formattedName(const Group& T) { return Str("TEST(") + T.sarg(0) + ", " + T.sarg(1) + ")"; }
 
@@ -44,7 +45,7 @@ static const char* familyType(int fam) { return (fam == 0 || fam == 3) ? "new" :
 // what one execution of test t must look like, given the model state (slots shared across tests, plugin call counters)
 static void modelTest(const Desc& d, const Vec<int>& testGroups, const Vec<int>& pluginGroups, int t, ModelState& ms, ExpTest& x) {
     const Group& T = d.groups[(size_t)testGroups[(size_t)t]];
-    x = ExpTest(); x.checks = 0; x.leakFailure = false;
+    x = ExpTest(); x.checks = 0; x.leakFailure = false; x.childEnd = 0; x.childValue = 0; x.childStops = 0;
     int mySeq = ++ms.seq;
     // plugin pre actions: installation-reversed order
     for (size_t p = pluginGroups.size(); p-- > 0;) {
@@ -88,6 +89,12 @@ static void modelTest(const Desc& d, const Vec<int>& testGroups, const Vec<int>&
             }
             case K_EXPECT_LEAKS: expectLeaks = (size_t)o.a; break;
             case K_IGNORE_LEAKS: ignoreLeaks = true; break;
+            case K_DIE_SIGNAL:
+                if (o.a == 17 || o.a == 18 || o.a == 23 || o.a == 28) break;      // default action of CHLD, CONT, URG, WINCH: ignore
+                x.childEnd = 1; x.childValue = (int)o.a; return;
+            case K_DIE_ABORT: x.childEnd = 1; x.childValue = 6; return;
+            case K_DIE_EXIT: x.childEnd = 2; x.childValue = (int)(o.a & 0xff); return;
+            case K_DIE_STOP: x.childStops++; break;
             case K_PTR_SET:
                 if (ptrSets >= MAX_SET) {
                     probe("ptr_table_overflow");
@@ -314,7 +321,8 @@ void checkOracles(const Desc& d, const Obs& o, RunResult& r) {
             if (!startEv.ctxOk) r.fail("C01", "context", sigOf("where", "test start"), sfmt("current test not restored before test %d", st.test));
             bool shouldExecute = runs[(size_t)st.test] != 0;
             ExpTest x;
-            if (shouldExecute) modelTest(d, testGroups, pluginGroups, st.test, ms, x); else { x.checks = 0; x.leakFailure = false; }
+            if (shouldExecute && c.separate) { ModelState childState = ms; modelTest(d, testGroups, pluginGroups, st.test, childState, x); }   // whatever the child does to memory dies with it
+            else if (shouldExecute) modelTest(d, testGroups, pluginGroups, st.test, ms, x); else { x.checks = 0; x.leakFailure = false; }
             // collect observed ops and failures of this segment
             Vec<ExpOp> seen; int64_t probeVal = 0; bool probed = false; Vec<size_t> segFails;
             for (size_t i = st.evBegin + 1; i < st.evEnd; i++) {
@@ -328,6 +336,58 @@ void checkOracles(const Desc& d, const Obs& o, RunResult& r) {
             if (x.leakFailure) probe("leak_failure_expected"); if (!x.leaks.empty() && !x.leakFailure) probe("leaks_but_no_leak_failure");
             if (!x.fails.empty()) { bool sb = false, td = false; for (size_t q = 0; q < x.fails.size(); q++) { (void)q; } (void)sb; (void)td; if (x.fails.size() >= 2) probe("two_failures_in_one_test"); }
             if (probed && probeVal != 0) r.fail("C17", "pointers_restored", sigOf("where", "next test"), sfmt("pointer state %llx at start of test %d (0 = all restored)", (unsigned long long)probeVal, st.test));
+            if (c.separate && shouldExecute) {
+                // ---- C11: what the parent must record for this test, from the child's modelled fate and the wait script
+                Vec<Str> want; Vec<Str> eitherTail; bool windowGiveUp = false, terminalSeen = false;
+                bool forkFail = false; int64_t eintr = 0; 
+                for (size_t i = 0; i < T.ops.size(); i++) if (T.ops[i].phase == PH_PROC && T.ops[i].kind == K_FORK_FAIL) forkFail = true;
+                if (forkFail) want.push_back("Call to fork() failed");
+                else {
+                    bool synthetic = d.pi("synthetic") != 0;
+                    // events in the order the parent meets them
+                    Vec<Op> evs;
+                    for (size_t i = 0; i < T.ops.size(); i++) if (T.ops[i].phase == PH_PROC && (T.ops[i].kind == K_W_EINTR || synthetic)) evs.push_back(T.ops[i]);
+                    if (!synthetic) {
+                        for (int k = 0; k < x.childStops; k++) { Op o; o.kind = K_W_STOP; o.a = 19; evs.push_back(o); }
+                        Op o;
+                        if (x.childEnd == 1) { o.kind = K_W_SIGNAL; o.a = x.childValue; }
+                        else if (x.childEnd == 2) { o.kind = K_W_EXIT; o.a = x.childValue; }
+                        else { o.kind = K_W_EXIT; o.a = x.fails.empty() ? 0 : 1; }
+                        evs.push_back(o);
+                    }
+                    for (size_t i = 0; i < evs.size() && !terminalSeen; i++) {
+                        const Op& o = evs[i];
+                        if (o.kind == K_W_EINTR) { eintr += o.a;
+                            if (eintr >= 40) { want.push_back("Call to waitpid() failed with EINTR"); terminalSeen = true; probe("eintr_past_retry_bound"); }
+                            else if (eintr > 30) { windowGiveUp = true; probe("eintr_inside_bound_window"); for (size_t k = i + 1; k < evs.size(); k++) { (void)k; } }
+                            else probe("eintr_survived");
+                            if (windowGiveUp && !terminalSeen) { /* either the wait gives up here (one failure, nothing after) or it goes on */ }
+                        }
+                        else if (o.kind == K_W_ERR) { want.push_back("Call to waitpid() failed"); terminalSeen = true; }
+                        else if (o.kind == K_W_STOP) want.push_back("Stopped in separate process");
+                        else if (o.kind == K_W_EXIT) { if ((o.a & 0xff) != 0) want.push_back("Failed in separate process"); terminalSeen = true; }
+                        else if (o.kind == K_W_SIGNAL) { want.push_back(sfmt("killed by signal %d", (int)o.a)); terminalSeen = true; }
+                    }
+                    if (synthetic && !terminalSeen) probe("script_without_terminal");
+                }
+                Vec<Str> got; for (size_t i = 0; i < segFails.size(); i++) got.push_back(o.fails[segFails[i]].msg);
+                bool match = got.size() == want.size();
+                for (size_t i = 0; match && i < got.size(); i++) if (got[i].find(want[i]) == Str::npos) match = false;
+                if (!match && windowGiveUp) {        // inside the 31..39 window the parent may also have given up: then exactly the failures up to that point plus one give-up
+                    bool giveUpForm = !got.empty() && got.back().find("Call to waitpid() failed with EINTR") != Str::npos && got.size() <= want.size() + 1;
+                    for (size_t i = 0; giveUpForm && i + 1 < got.size(); i++) if (i >= want.size() || got[i].find(want[i]) == Str::npos) giveUpForm = false;
+                    if (giveUpForm) match = true;
+                }
+                if (!match) {
+                    Str g, w; for (size_t i = 0; i < got.size(); i++) g += "[" + got[i] + "] "; for (size_t i = 0; i < want.size(); i++) w += "[" + want[i] + "] ";
+                    const char* what = got.size() < want.size() ? "event not recorded in the parent" : (got.size() > want.size() ? "extra failure in the parent" : "wrong diagnosis");
+                    r.fail("C11", "parent_failures", sigOf("what", what), sfmt("rep %zu test %d (%s): parent recorded %zu failures %s, model expects %zu %s", rp, st.test, formattedName(T).c_str(), got.size(), g.c_str(), want.size(), w.c_str()));
+                }
+                for (size_t i = 0; i < segFails.size(); i++) { const FailRec& fr = o.fails[segFails[i]]; if (fr.file != T.sarg(2) || fr.line != (size_t)T.arg(1) || fr.testName != formattedName(T)) r.fail("C11", "failure_owner", sfmt("failure '%s' attributed to %s at %s:%zu", fr.msg.c_str(), fr.testName.c_str(), fr.file.c_str(), fr.line)); }
+                if (!seen.empty()) r.fail("C11", "ran_in_parent", sfmt("test %d executed %zu statements in the parent process", st.test, seen.size()));
+                repFailures += segFails.size(); failCursor += segFails.size();
+                continue;
+            }
             // trace comparison
             bool same = seen.size() == x.ops.size();
             size_t firstDiff = 0;
@@ -417,6 +477,17 @@ void checkOracles(const Desc& d, const Obs& o, RunResult& r) {
     if (o.fails.size() != failCursor) r.fail("C01", "failure_count", sigOf("what", "failure outside any test"), sfmt("%zu failures recorded, %zu inside test segments", o.fails.size(), failCursor));
 
     if (o.pluginCount != o.pluginCountExpected || o.removedStillFound) r.fail("C17", "plugin_removed", sigOf("what", o.pluginCount > o.pluginCountExpected ? "plugin not removed" : "wrong plugin removed"), sfmt("%d plugins installed after the removals, model %d; %d removed names still found", o.pluginCount, o.pluginCountExpected, o.removedStillFound));
+    if (c.separate) {
+        // hangs, SIGCONT per stop, fork per executed test
+        size_t hangs = 0, forks = 0, conts = 0, stopsSeen = 0;
+        for (size_t i = 0; i + 2 < o.procLog.size(); i += 3) { if (o.procLog[i + 1] == 4) hangs++; if (o.procLog[i + 1] == 1) forks++; if (o.procLog[i + 1] == 3 && o.procLog[i + 2] == 18) conts++; }
+        for (size_t i = 0; i < o.fails.size(); i++) if (o.fails[i].msg.find("Stopped in separate process") != Str::npos) stopsSeen++;
+        if (hangs) r.fail("C11", "bounded_wait", sigOf("what", "waitpid called again after the child had terminated"), sfmt("%zu tests kept waiting after their terminal status", hangs));
+        if (forks != nRun * repsSeen.size()) r.fail("C11", "remaining_tests", sigOf("what", "fork count"), sfmt("%zu forks for %zu executed tests x %zu repetitions", forks, nRun, repsSeen.size()));
+        if (conts != stopsSeen) r.fail("C11", "continue_after_stop", sfmt("%zu stop failures, %zu SIGCONT sent", stopsSeen, conts));
+        bool anyFail = !o.fails.empty();
+        if (anyFail && o.ret == 0) r.fail("C11", "overall_failure", sigOf("what", "run reported OK although a child event was recorded"), sfmt("return value %d with %zu failures", o.ret, o.fails.size()));
+    }
     // ---- return value (C01)
     if ((o.ret == 0) != !anyRepFailed) r.fail("C01", "return_value", sigOf("what", o.ret == 0 ? "zero although a repetition failed" : "non-zero although every repetition was OK"), sfmt("runner returned %d; some repetition failed: %d", o.ret, (int)anyRepFailed));
     if (o.depthAtEnd != o.depthAtStart) r.fail("C01", "jump_depth", sigOf("where", "end of run"), sfmt("jump stack depth %ld at end of run, %ld at start", o.depthAtEnd, o.depthAtStart));
